@@ -98,9 +98,9 @@ let () =
         let n = (match rest with [x] -> int_of_string x | _ -> 1) in
         for _ = 1 to n do if !started then do_step STick done;
         flush_tx ();
-        if !started then Printf.printf "open %d\n" (iz !s.opencnt);
         List.iter (fun c -> Printf.printf "closed c%d\n" (iz c)) !s.to_close;
-        s := { !s with to_close = [] }
+        s := { !s with to_close = [] };
+        if !started then Printf.printf "open %d\n" (iz !s.opencnt)
     | ["adv"; ms] -> now := !now + int_of_string ms
     | ["rx"; c; hex] -> if cur_is (cnum c) then do_step (SRx (bytes_of_hex hex))
     | "rxi" :: c :: hex :: rest ->
